@@ -160,6 +160,22 @@ pub fn check_state(cfg: &HistCfg, st: &HState, built: bool, w: &mut Worker) -> R
         SECOND_ENV.with(|s| -> Result<(), Fail> {
             let s = s.borrow();
             let b = s.as_ref().unwrap();
+            // a database may hold indexes of several metrics: the metadata of the last twin is re-labelled
+            // with another metric's name before the 0.5 -> 0.6 step (every index with metadata gets a record)
+            {
+                let mut wb = b.env.write_txn().unwrap();
+                let last_twin = *twins(cfg.index).iter().max().unwrap();
+                let key = encode_key(last_twin, KIND_METADATA, 0);
+                let stored: Option<Vec<u8>> = b.db.get(&wb, &key).unwrap().map(|v| v.to_vec());
+                if let Some(v) = stored {
+                    if let Ok(mut m) = crate::layout::parse_meta(&v) {
+                        m.name = "manhattan".to_string();
+                        b.db.put(&mut wb, &key, &crate::layout::encode_meta(&m)).unwrap();
+                        w.count("relabelled_metadata", 1);
+                    }
+                }
+                wb.commit().unwrap();
+            }
             let rb = b.env.read_txn().unwrap();
             let before = b.dump(&rb);
             let mut wb = b.env.write_txn().unwrap();
